@@ -12,6 +12,10 @@ import glob, json, os, shutil, subprocess, sys, time
 
 ROOT = os.path.dirname(os.path.dirname(os.path.abspath(__file__)))
 ENV = dict(os.environ, GOFLAGS="-mod=mod", GOPROXY="off", GOSUMDB="off", GOTOOLCHAIN="local")
+# the checkout the change is applied to: /repo itself, or (SEED_REPO, used for long batches so that /repo stays free) a
+# scratch worktree of /repo's HEAD that a scratch clone of /verif is pointed at (VERIF_REPO + the harness's replace line)
+SEED_REPO = os.environ.get("SEED_REPO", "/repo")
+LOCKFILE = "/tmp/verif-repo.lock" if SEED_REPO == "/repo" else "/tmp/verif-repo-" + SEED_REPO.strip("/").replace("/", "_") + ".lock"
 
 
 def sh(cmd, cwd=None, timeout=3600):
@@ -29,6 +33,8 @@ def main():
     patch = os.path.join(out, "patch.diff")
     demos = [f for f in glob.glob(os.path.join(out, "*_test.go"))]
     meta = json.load(open(os.path.join(out, "meta.json"))) if os.path.exists(os.path.join(out, "meta.json")) else {}
+    out = os.path.abspath(out)
+    patch = os.path.abspath(patch)
     result = {"agent_meta": meta, "confirmed": {}, "checks": {}}
     if "--skip-confirm" not in sys.argv:
         wt = "/tmp/seed-verify"
@@ -69,12 +75,12 @@ def main():
             sh(f"git -C /repo worktree remove --force {wt}")
     # run the checks against the change (holding the lock that everything running against /repo takes)
     import fcntl
-    lock = open("/tmp/verif-repo.lock", "w")
+    lock = open(LOCKFILE, "w")
     fcntl.flock(lock, fcntl.LOCK_EX)
     ENV["VERIF_REPO_LOCKED"] = "1"
-    code, o = sh("git -C /repo status --porcelain")
-    assert o.strip() == "", "/repo has uncommitted changes:\n" + o
-    code, o = sh(f"git -C /repo apply {os.path.abspath(patch)}")
+    code, o = sh(f"git -C {SEED_REPO} status --porcelain")
+    assert o.strip() == "", SEED_REPO + " has uncommitted changes:\n" + o
+    code, o = sh(f"git -C {SEED_REPO} apply {os.path.abspath(patch)}")
     assert code == 0, o
     try:
         for p in props:
@@ -94,10 +100,10 @@ def main():
             result["checks"][p] = {"exit": c, "lines": lines, "first_violation": detail, "wall_s": round(time.time() - t0, 1), "tier": tier}
             print(p, "exit", c, lines[:2], detail[:400])
     finally:
-        sh("git -C /repo checkout -- .")
-        sh("git -C /repo clean -fdq -- . ':!verif_*'")
-    code, o = sh("git -C /repo status --porcelain")
-    assert o.strip() == "", "/repo not clean after undo:\n" + o
+        sh(f"git -C {SEED_REPO} checkout -- .")
+        sh(f"git -C {SEED_REPO} clean -fdq -- . ':!verif_*'")
+    code, o = sh(f"git -C {SEED_REPO} status --porcelain")
+    assert o.strip() == "", SEED_REPO + " not clean after undo:\n" + o
     fcntl.flock(lock, fcntl.LOCK_UN)
     dst = os.path.join(ROOT, "seeded", sid)
     os.makedirs(dst, exist_ok=True)
@@ -108,13 +114,14 @@ def main():
         hist = old.get("earlier_runs", [])
         hist.append({"checks_run": old.get("checks_run"), "detected": old.get("detected")})
         result["earlier_runs"] = hist
-    shutil.copy(patch, os.path.join(dst, "patch.diff"))
+    if os.path.abspath(patch) != os.path.abspath(os.path.join(dst, "patch.diff")):
+        shutil.copy(patch, os.path.join(dst, "patch.diff"))
     for d in demos:
         shutil.copy(d, os.path.join(dst, os.path.basename(d) + ".txt"))  # .txt: not part of any Go package here
     detected = any(v["exit"] == 1 and any(l.startswith("VIOLATION") for l in v["lines"]) for v in result["checks"].values())
     final = {"property": meta.get("property"), "summary": meta.get("summary"), "needs_to_manifest": meta.get("needs_to_manifest"),
              "demo_cmd": meta.get("demo_cmd"), "confirmed_by_us": result["confirmed"], "checks_run": result["checks"], "detected": detected,
-             "earlier_runs": result.get("earlier_runs", [])}
+             "earlier_runs": result.get("earlier_runs", []), "applied_to": SEED_REPO}
     json.dump(final, open(os.path.join(dst, "meta.json"), "w"), indent=1)
     print("stored", dst, "detected" if detected else "MISSED")
 
